@@ -326,7 +326,7 @@ def check(ctx: Ctx) -> list[RuleResult]:
     # the next context state. A short cut that hands back the packet without the transition leaves the context in the waiting state:
     # the next step finds the wrong state (BindingFsmError), the device stays binding and no new attempt can start
     r7 = RuleResult("R7", "a completed wait makes its transition", "every normal return of the state's wait passes _set_context_state(); both entry points reset the same per-attempt state", min_instances=2)
-    waits7 = [g for g in repo.funcs.values() if g.module.name == MOD and g.is_async and any(isinstance(n, ast.Call) and norm(n.func).endswith("wait_for") for n in own_nodes(g.node)) and any(isinstance(n, ast.Call) and isinstance(n.func, ast.Attribute) and n.func.attr == "_set_context_state" for n in own_nodes(g.node))]
+    waits7 = [g for g in repo.funcs.values() if g.module.name == MOD and g.is_async and any(isinstance(n, ast.Await) for n in own_nodes(g.node)) and any(isinstance(n, ast.Call) and isinstance(n.func, ast.Attribute) and n.func.attr == "_set_context_state" for n in own_nodes(g.node))]
     if not waits7:
         raise AnalysisError("binding_fsm: the state's wait (wait_for + _set_context_state) was not found")
     for g in waits7:
